@@ -13,4 +13,10 @@ theorem C20_fastDepth_spec (l : List (Iv α)) : IsDepthRLE l (fastDepth' l) := f
 theorem C20_isDepthRLE_iff_eq_fastDepth (l : List (Iv α)) (runs : List (Iv Nat)) : IsDepthRLE l runs ↔ runs = fastDepth' l :=
   isDepthRLE_iff_eq_fastDepth' l runs
 
+/-- the model's `depth()` (position-by-position probing through the seek cursor, as the Rust does) and the sweep are the same
+function on every reachable state: two very different algorithms, one specification -/
+theorem C20_depth_eq_fastDepth (l : List (Iv α)) (ops : List (Op α)) (h : NonEmptyIvs l ops) (hfit : FitsU64 l ops) :
+    (Lapper.run l ops).depth = fastDepth' (Lapper.run l ops).intervals.toList :=
+  (isDepthRLE_iff_eq_fastDepth' _ _).mp (C20_depth_spec l ops h hfit)
+
 end BV
